@@ -7,6 +7,10 @@
  *            k  direct calls, the consumer keeps everything (one growing token: append / move-to-itself / expansion paths)
  *            h  direct calls, the consumer keeps the second half of what is buffered (compaction path)
  *               -> `fl <units the scanner was given, in order> eof=<0|1> counts=<count argument of every read_func call>`
+ *            o<a><b>  direct calls; after every refill the consumer drops the first a/8 of what is buffered from text_start on
+ *               (a = 0..8), puts tvalue_start b units (b = 0..9) behind text_start and has scanned everything; after each
+ *               get_more_chars the scanner's offsets are printed
+ *               -> `fl n=<refills> eof=<0|1> recs=<size>:<limit>:<next>:<text>:<tvalue>:<checksum of [text,next)>/… counts=…`
  *            e  the real scan_ws (HANDLE_EOL) over the RAW units pre-loaded into the buffer (no conversion)
  *               -> `fl lines=<final line> col=<final column>`
  *            p  cif_parse_internal, syntax only, CIF 2 fixed;  q  the same with cif_version 0 (magic code inspected)
@@ -80,6 +84,7 @@ struct log {
 
 static int err_cb(int code, size_t line, size_t column, const UChar *text, size_t length, void *data) {
     struct log *l = (struct log *) data;
+    if (l == NULL) return CIF_OK;
     fprintf(l->err, "%s%d:%zu", l->nerr++ ? "," : "", code, line);
     return CIF_OK;
 }
@@ -169,8 +174,59 @@ static void handle(int argc, char **argv) {
     UChar *doc = NULL;
     size_t len = 0;
     char mode;
-    if (argc != 4 || strlen(argv[1]) != 1 || !unhex(argv[2], &doc, &len) || doc == NULL) { OUT("bad-op"); free(doc); return; }
+    if (argc != 4 || (strlen(argv[1]) != 1 && !(argv[1][0] == 'o' && strlen(argv[1]) == 3)) || !unhex(argv[2], &doc, &len) || doc == NULL) {
+        OUT("bad-op"); free(doc); return;
+    }
     mode = argv[1][0];
+
+    if (mode == 'o') {
+        struct src s;
+        struct scanner_s scanner_v, *scanner = &scanner_v;
+        cif_handler_tp h;
+        int rc, a = argv[1][1] - '0', bv = argv[1][2] - '0', nrec = 0;
+        if (a < 0 || a > 8 || bv < 0 || bv > 9) { OUT("bad-op"); free(doc); return; }
+        memset(&s, 0, sizeof(s));
+        memset(&h, 0, sizeof(h));
+        s.doc = doc; s.len = len;
+        if (!parse_cuts(argv[3], len, &s.ends, &s.nends)) { OUT("bad-op"); free(doc); return; }
+        setup_scanner(scanner, &s, 2, NULL, &h);
+        scanner->buffer = (UChar *) malloc(BUF_SIZE_INITIAL * sizeof(UChar));
+        scanner->buffer_size = BUF_SIZE_INITIAL;
+        scanner->buffer_limit = 0;
+        INIT_V2_SCANNER(scanner, NULL, NULL);
+        scanner->next_char = scanner->buffer;
+        scanner->text_start = scanner->buffer;
+        scanner->tvalue_start = scanner->buffer;
+        scanner->tvalue_length = 0;
+        rc = get_first_char(scanner);
+        OUT("fl recs=");
+        if (rc == CIF_OK) {
+            for (;;) {
+                size_t lim = scanner->buffer_limit, ts = (size_t) (scanner->text_start - scanner->buffer), R, k, i;
+                unsigned long sum = 0;
+                /* the consumer */
+                R = lim - ts;
+                ts += R * (size_t) a / 8;
+                scanner->text_start = scanner->buffer + ts;
+                scanner->tvalue_start = scanner->text_start + (((size_t) bv < lim - ts) ? (size_t) bv : lim - ts);
+                scanner->next_char = scanner->buffer + lim;
+                if (scanner->at_eof) { rc = CIF_EOF; break; }
+                rc = get_more_chars(scanner);
+                if (rc != CIF_OK) break;
+                k = (size_t) (scanner->next_char - scanner->text_start);
+                for (i = 0; i < k; i++) sum = (sum + (unsigned long) (i + 1) * scanner->text_start[i]) % 1000003UL;
+                OUT("%s%zu:%zu:%zu:%zu:%zu:%lu", nrec++ ? "/" : "", scanner->buffer_size, scanner->buffer_limit,
+                    (size_t) (scanner->next_char - scanner->buffer), (size_t) (scanner->text_start - scanner->buffer),
+                    (size_t) (scanner->tvalue_start - scanner->buffer), sum);
+            }
+        }
+        if (!nrec) OUT("-");
+        OUT(" n=%d eof=%d", nrec, rc == CIF_EOF ? 1 : 0);
+        if (rc != CIF_EOF) OUT(" rc=%d", rc);
+        out_counts(&s);
+        free(scanner->buffer); free(s.ends); free(s.counts); free(doc);
+        return;
+    }
 
     if (mode == 'd' || mode == 'k' || mode == 'h') {
         struct src s;
